@@ -27,6 +27,20 @@ Proof. pose proof hash_facts as H; split; apply H. Qed.
 
 Print Assumptions C12_truncation_prefix.
 
+(* the same under every read/skip program: a record returned at step i of ANY mix of ReadNext and SkipNext over the
+   cut file is record i of the written file and lies completely inside the cut (skipping a record whose payload is
+   cut may itself succeed - the reader only seeks - but nothing is returned after it) *)
+Theorem C12_truncation_mixed_programs :
+  forall (c : codec), (forall x, decomp c (comp c x) = Ok x) -> ctype c <= 3 ->
+  forall (rs : list (option bytes)) (n : N) (prog : list bool),
+    Forall (size_ok c) rs -> 8 <= n ->
+    let f := file_hdr (ctype c) ++ flat_map (enc_rec c) rs in
+    n <= lenN f ->
+    forall i x, nth_error (read_mixed c (firstn (N.to_nat n) f) 8 prog) i = Some (Ok (Some x)) ->
+      nth_error rs i = Some x /\ 8 + lenN (flat_map (enc_rec c) (firstn (S i) rs)) <= n.
+Proof. exact truncation_mixed. Qed.
+Print Assumptions C12_truncation_mixed_programs.
+
 Theorem C12_truncation_read_at :
   forall (c : codec), (forall x, decomp c (comp c x) = Ok x) -> ctype c <= 3 ->
   forall (rs : list (option bytes)) (n : N) pre r post,
